@@ -1027,6 +1027,11 @@ def gen_region(d, shape, allow_int=True):
     if rank and style == "strided":
         for a in d.subset(range(rank), min_size=1):
             form[a] = d.choice(["stride2", "stride3"])
+        if d.chance(1, 2):
+            # interleaving: a strided region anchored at the origin on every axis (slice(0, None, 2))
+            off = [0] * rank
+            if not any(pad):
+                pad[d.int(0, rank - 1)] = d.int(1, 3)
     if rank and style == "neg":
         for a in d.subset(range(rank), min_size=1):
             form[a] = "neg"
